@@ -820,7 +820,8 @@ fn check_config(ctx: &mut Ctx, c: &ConfigCase) -> Res {
                 },
                 Err(_) => {
                     if s.udp_drops() > 0 {
-                        ctx.inconclusive(format!("{}: a request went unanswered but the kernel reports drops", tag));
+                        ctx.note(format!("{}: a request went unanswered but the kernel reports drops; configuration not judged", tag));
+                        ctx.class("c15:not-judged-kernel-drops");
                         return Ok(());
                     }
                     return ctx.fail("request-unanswered", format!("{}: a valid request got no reply within 3 s (no kernel drops); workers alive: {:?}", tag, s.thread_names()));
@@ -902,7 +903,8 @@ fn check_config(ctx: &mut Ctx, c: &ConfigCase) -> Res {
                             format!("{}: {} requests (+4 other datagrams) were sent to the stopped server by one client; a socket with the default receive buffer holds {} such datagrams, yet the kernel dropped {} at the server's socket and only {} requests were answered", tag, m, cap, s.udp_drops(), got),
                         );
                     }
-                    ctx.inconclusive(format!("{}: burst replies missing but the kernel reports drops", tag));
+                    ctx.note(format!("{}: burst replies missing but the kernel reports drops; configuration not judged", tag));
+                    ctx.class("c15:not-judged-kernel-drops");
                     return Ok(());
                 }
                 return ctx.fail(
@@ -1348,7 +1350,7 @@ fn run_round(ctx: &mut Ctx, s: &mut ServerProc, r: &Round, round_no: u64) -> Res
                     Err(_) => {
                         let server_drops = udp_drops_for_port(port).saturating_sub(server_drops0);
                         let drops = server_drops + udp_drops_for_port(my_port) + softnet_drops().saturating_sub(softnet0);
-                        if server_drops > 0 && outstanding_max * 100 <= default_cap * 85 {
+                        if server_drops > 0 && !r.noise && outstanding_max * 100 <= default_cap * 85 {
                             out.violation = Some(viol(
                                 "request-unanswered-under-load|receive-queue-smaller-than-the-default",
                                 format!("client {} request {} ({}) got no reply within 10 s; the kernel dropped {} datagrams at the server's socket although at most {} datagrams can be outstanding in this round and a socket with the default receive buffer queues {}", c, k, proto.name(), server_drops, outstanding_max, default_cap),
@@ -1405,7 +1407,10 @@ fn run_round(ctx: &mut Ctx, s: &mut ServerProc, r: &Round, round_no: u64) -> Res
                 while !over.load(Ordering::Relaxed) {
                     sent += 1;
                     let proto = if sent % 2 == 0 { Proto::Classic } else { Proto::Ietf };
-                    raw.send(addr, &fresh_request(proto, b"c18-noise", sent ^ (round_no << 40)));
+                    // never pile up: the noise pauses while more than ~25 datagrams wait at the server
+                    if udp_rx_queue_for_port(port) < 60_000 {
+                        raw.send(addr, &fresh_request(proto, b"c18-noise", sent ^ (round_no << 40)));
+                    }
                     std::thread::sleep(Duration::from_millis(2));
                 }
             }
@@ -1431,7 +1436,9 @@ fn run_round(ctx: &mut Ctx, s: &mut ServerProc, r: &Round, round_no: u64) -> Res
         keys.extend(o.keys);
         outliers.extend(o.clock_outliers);
         if let Some(m) = o.inconclusive {
-            ctx.inconclusive(format!("C18 round: {}", m));
+            // datagrams lost in the kernel: this round is a sample that cannot be judged (counted, not a verdict)
+            ctx.note(format!("C18 round not judged: {}", m));
+            ctx.class("c18:round-not-judged-kernel-drops");
         }
         if first_v.is_none() {
             first_v = o.violation;
